@@ -82,4 +82,10 @@ DRIVERS = {
         "level_text": "Every combination of the per-sibling profiles (sizes up to 2^61, values around 2^31 and 2^32, fractional ratios and pressures, zero and negative rate increases) with every listed parameter value is executed on the real plugin; the cgroup named in the '(dry)' record must be in the reference's arg-max set, must pass the eligibility filter, and must exist whenever a candidate is eligible.",
         "level_note": "Trusted: reference ranking written from docs/core_plugins.md (A.3 of DESIGN.md), tolerance rules (ties, thresholds within 1e-9 relative, float ratio within 1e-5), simulated statistics files.",
     },
+    "C08": {
+        "sources": COMMON + ["props/c08.cpp"], "level": "exploration", "engine": "E1",
+        "technique": "exhaustive enumeration of all sample histories up to length T over each detector's letter alphabet, executed on the real detectors under a virtual clock; oracle evaluates the documented predicate over the whole history",
+        "level_text": "Every history (value relative to threshold x irregular clock advance x cgroup presence) of the stated length is run through the real detector inside Oomd::run; at every tick the detector's return value and whether the action chain ran are compared with the documented predicate computed non-incrementally from the whole history, so arming/disarming bookkeeping errors cannot be mirrored by the oracle.",
+        "level_note": "Trusted: verif_wrap observer, virtual clock, simulated PSI/memory/vmstat/swaps files, predicates transcribed from docs/core_plugins.md (A.5 of DESIGN.md).",
+    },
 }
